@@ -339,9 +339,11 @@ def run_check(P, tier, seed, replay=None):
     ev = {"property_id": pid, "tier": tier, "seed": seed, "level": "proof", "coverage": cov,
           "assumptions": list(getattr(P, "ASSUMES", [])), "wall_s": round(wall, 2),
           "violations": len(ctx.violations)}
-    os.makedirs(os.path.join(vlib.ROOT, "evidence"), exist_ok=True)
+    evdir = os.path.join(vlib.ROOT, "evidence") if "VERIF_REPO" not in os.environ else \
+        os.path.join(vlib.BUILD, "evidence_alt")
+    os.makedirs(evdir, exist_ok=True)
     if not replay:
-        with open(os.path.join(vlib.ROOT, "evidence", pid + ".json"), "w") as fh:
+        with open(os.path.join(evdir, pid + ".json"), "w") as fh:
             json.dump(ev, fh, indent=1, sort_keys=True, default=str)
     done = set()
     for f, _ in ctx.known_hits:
